@@ -1,0 +1,8 @@
+//go:build verif
+
+package salsa
+
+// VerifGenericXORKeyStream is the pure Go keystream (genericXORKeyStream).
+func VerifGenericXORKeyStream(out, in []byte, counter *[16]byte, key *[32]byte) {
+	genericXORKeyStream(out, in, counter, key)
+}
